@@ -3,7 +3,8 @@ Model of the hook machinery of acmed 0.25.0 (CURRENT working tree), import-free.
 
 * `acmed/src/config.rs:95-133`   `Config::get_hook` / `get_hook_rec`  → `expand`, `expandAll`
 * `acmed/src/config.rs:413-426,577-584` `Account::get_hooks`, `Certificate::get_hooks` → `expandAll`
-* `acmed/src/config.rs:792-804`  `dispatch_global_env_vars` → `dispatchGlobal`
+* `acmed/src/config.rs:792-811`  `dispatch_global_env_vars` → `dispatchGlobal`,
+  `accountEnvAfterDispatch` (repaired, and the variant before the repair)
 * `acmed/src/main_event_loop.rs:28-46,65-70,101-105,116-120` file/certificate split → `splitHooks`
 * `acmed/src/hooks.rs:29-48`     `set_env` (repaired, and the variant before the repair) → `setEnv`
 * `acmed/src/hooks.rs:127-202`   `call_single` → `Exit`, `Exit.hard`
@@ -269,9 +270,21 @@ def setEnv (mode : EnvMode) (proc : Env) (acc : Env) (level : Env) : Env :=
   | .repaired => insertAll (proc.foldl (fun a p => insertIfAbsent a p.1 p.2) acc) level
   | .old => insertAll (proc.foldl (fun a p => insert a p.1 p.2) acc) level
 
-/-- `dispatch_global_env_vars` for one certificate (`config.rs:792-804`): the global table copied
-under the certificate's own table.  NOT applied to accounts. -/
-def dispatchGlobal (global : Env) (cert : Env) : Env := insertAll global cert
+/-- `dispatch_global_env_vars` for one certificate or (since commit 703ab3f) one account
+(`config.rs:792-811`): the global table copied under the owner's own table (owner wins). -/
+def dispatchGlobal (global : Env) (owner : Env) : Env := insertAll global owner
+
+/-- Whether `dispatch_global_env_vars` also visits the accounts. -/
+inductive AccountDispatch where
+  | repaired   -- config.rs:802-808 as it is now: `account.env` = global table under the account's
+  | old        -- before commit 703ab3f: only certificates were visited, `account.env` untouched
+  deriving Repr, DecidableEq, Inhabited
+
+/-- `Account.env` after `config::from_file`. -/
+def accountEnvAfterDispatch (d : AccountDispatch) (global account : Env) : Env :=
+  match d with
+  | .repaired => dispatchGlobal global account
+  | .old => account
 
 /-- `call_challenge_hooks` (`certificate.rs:156-159`): `certEnv` is `Certificate.env`, i.e. AFTER
 `dispatchGlobal`. -/
@@ -282,7 +295,8 @@ def challengeEnv (mode : EnvMode) (proc certEnv identEnv : Env) : Env :=
 def postOpEnv (mode : EnvMode) (proc certEnv : Env) : Env := setEnv mode proc [] certEnv
 
 /-- `write_file` (`storage.rs:200-202`): `fmEnv` is `FileManager.env` = the certificate's table after
-`dispatchGlobal`, or the account's own table (`main_event_loop.rs:71,106`). -/
+`dispatchGlobal`, or the account's table after `accountEnvAfterDispatch`
+(`main_event_loop.rs:71,106`). -/
 def fileEnv (mode : EnvMode) (proc fmEnv : Env) : Env := setEnv mode proc [] fmEnv
 
 /-- What the child process sees: `Command::envs(data.get_env())` over the inherited environment. -/
@@ -298,9 +312,27 @@ def postOpChildEnv (mode : EnvMode) (proc global cert : Env) : Env :=
 def certFileChildEnv (mode : EnvMode) (proc global cert : Env) : Env :=
   childEnv proc (fileEnv mode proc (dispatchGlobal global cert))
 
-/-- The `global` table plays no part for an account's file hooks. -/
-def accountFileChildEnv (mode : EnvMode) (proc account : Env) : Env :=
-  childEnv proc (fileEnv mode proc account)
+/-- An account's file hooks (`write_file` for the account file).  With `d = .old` the `global`
+table plays no part. -/
+def accountFileChildEnv (mode : EnvMode) (d : AccountDispatch) (proc global account : Env) : Env :=
+  childEnv proc (fileEnv mode proc (accountEnvAfterDispatch d global account))
+
+/-- The four places a hook environment is built. -/
+inductive EnvKind where
+  | challenge       -- challenge and clean hooks: `owner` = certificate, `ident` = identifier table
+  | postOperation   -- `owner` = certificate
+  | certFile        -- file hooks of a certificate's files: `owner` = certificate
+  | accountFile     -- file hooks of the account file: `owner` = account
+  deriving Repr, DecidableEq, Inhabited
+
+/-- The child environment of the CURRENT code (both repairs), for each of the four kinds; `ident` is
+ignored except for `challenge`. -/
+def modelChildEnv (kind : EnvKind) (proc global owner ident : Env) : Env :=
+  match kind with
+  | .challenge => challengeChildEnv .repaired proc global owner ident
+  | .postOperation => postOpChildEnv .repaired proc global owner
+  | .certFile => certFileChildEnv .repaired proc global owner
+  | .accountFile => accountFileChildEnv .repaired .repaired proc global owner
 
 /-- `a` if set, else `b`. -/
 def orElse (a b : Option Val) : Option Val :=
